@@ -315,6 +315,45 @@ func genC10(c *runCfg) error {
 			g.w("\tout2, err2 := msg.PlainNasEncode()\n\tvrt.Assert(err2 == nil, \"%s: encoding again succeeds\")\n\tvrt.Equal(out2, out, \"%s: encoding again yields the same bytes\")\n}\n\n", m.Message, m.Message)
 		}
 	}
+	// results held across calls (one harness per message):
+	//  _two: two messages of the type encoded one after the other through PlainNasEncode - the octets returned for the first
+	//        are the caller's: not changed by the second call, no memory shared, and scribbling on them does not change a later result
+	//  _redecode: a message value decoded into twice - a by-value copy kept from the first decode still equals a fresh decode
+	//        of the first input (the second decode hands out fresh memory instead of rewriting what it handed out before)
+	for i := range g.spec.Messages {
+		m := &g.spec.Messages[i]
+		if m.MsgType == nil {
+			continue
+		}
+		h := hdrLen(m)
+		fam, hdr, hn := "GmmMessage", "GmmHeader", 3
+		if m.Family == "gsm" {
+			fam, hdr, hn = "GsmMessage", "GsmHeader", 4
+		}
+		g.w("func VH_C10_%s_two() {\n", m.Message)
+		g.w("\tmk := func(es []ref.Elem, tag string) *Message {\n\t\tmsg := NewMessage()\n\t\tmsg.%s = New%s()\n\t\tmsg.%s.%s = zzBuild%s(es)\n", fam, fam, fam, m.Message, m.Message)
+		for k := 0; k < hn-1; k++ {
+			g.w("\t\tmsg.%s.%s.Octet[%d] = vrt.U8(tag + \"h%d\")\n", fam, hdr, k, k)
+		}
+		g.w("\t\tmsg.%s.%s.SetMessageType(%d)\n\t\treturn msg\n\t}\n", fam, hdr, *m.MsgType)
+		g.w("\tm1 := mk(zzSym%s(vrt.Choose(\"shape\", 0, 1), 0), \"a\")\n\tm2 := mk(zzSymB%s(vrt.Choose(\"shapeB\", 0, 1), 0), \"b\")\n", m.Message, m.Message)
+		g.w("\tout1, err1 := m1.PlainNasEncode()\n\tvrt.Assert(err1 == nil, \"%s: first encode succeeds\")\n\tkeep1 := append([]byte{}, out1...)\n", m.Message)
+		g.w("\tout2, err2 := m2.PlainNasEncode()\n\tvrt.Assert(err2 == nil, \"%s: second encode succeeds\")\n\tkeep2 := append([]byte{}, out2...)\n", m.Message)
+		g.w("\tvrt.Equal(out1, keep1, \"%s: the octets returned for one message are not changed by encoding another\")\n", m.Message)
+		g.w("\tfor i := range out1 {\n\t\tout1[i] = ^out1[i]\n\t}\n")
+		g.w("\tvrt.Equal(out2, keep2, \"%s: two encodings share no memory\")\n", m.Message)
+		g.w("\tout3, err3 := m1.PlainNasEncode()\n\tvrt.Assert(err3 == nil, \"%s: encoding the first message again succeeds\")\n", m.Message)
+		g.w("\tvrt.Equal(out3, keep1, \"%s: encoding is a function of the message, whatever happened to an earlier result\")\n", m.Message)
+		g.w("\tvrt.Equal(out2, keep2, \"%s: an earlier result is not changed by a later encode\")\n}\n\n", m.Message)
+
+		g.w("func VH_C10_%s_redecode() {\n", m.Message)
+		g.w("\tin1 := vrt.Bytes(\"in\", vrt.Choose(\"n\", %d, %d))\n", h+mandMin(m), h+mandMin(m)+2)
+		g.w("\tin2 := vrt.Bytes(\"inb\", vrt.Choose(\"nb\", %d, %d))\n", h+mandMin(m), h+mandMin(m)+1)
+		g.w("\ta := nasMessage.New%s(0)\n\tif a.Decode%s(&in1) != nil {\n\t\treturn\n\t}\n", m.Message, m.Message)
+		g.w("\tc1 := *a // the caller keeps the first result by value\n\t_ = a.Decode%s(&in2)\n", m.Message)
+		g.w("\tf := nasMessage.New%s(0)\n\tvrt.Assert(f.Decode%s(&in1) == nil, \"%s: decoding is deterministic (accept again)\")\n", m.Message, m.Message, m.Message)
+		g.w("\tvrt.Equal(&c1, f, \"%s: a message kept from an earlier decode is not changed by decoding into the same value again\")\n}\n\n", m.Message)
+	}
 	return g.finish(c, "C10")
 }
 
